@@ -24,6 +24,7 @@
 
 extern "C" size_t __sanitizer_get_current_allocated_bytes();
 extern "C" int __lsan_do_recoverable_leak_check();
+extern "C" void __sanitizer_symbolize_pc(void* pc, const char* fmt, char* out_buf, size_t out_buf_size);
 extern "C" int __sanitizer_install_malloc_and_free_hooks(void (*malloc_hook)(const volatile void*, size_t),
                                                          void (*free_hook)(const volatile void*));
 
@@ -426,6 +427,10 @@ inline void run_target_case(const Target& t, uint64_t variant, Rng& r) {
     void* m = mmap(nullptr, sizeof(Shm), PROT_READ | PROT_WRITE, MAP_SHARED | MAP_ANONYMOUS, -1, 0);
     if (m == MAP_FAILED) throw std::runtime_error("mmap failed");
     shm() = static_cast<Shm*>(m);
+    // warm up the in-process symbolizer once in the parent: every child inherits the parsed debug
+    // info instead of re-reading it for each sanitizer report (0.4 s -> a few ms per report)
+    char sb[512]; sb[0] = 0;
+    __sanitizer_symbolize_pc(reinterpret_cast<void*>(reinterpret_cast<uintptr_t>(&classify_report) + 8), "%f %s:%l", sb, sizeof sb);
   }
   Shm* s = shm();
   // image: function of (seed, family, kind, variant) only, so that all paths of a kind see the same images
